@@ -482,6 +482,7 @@ func genObjCase(r *rand.Rand) *objCase {
 		kind, name string
 		spec       *gspec
 		cur        map[string]interface{} // the manifest entry of the latest revision, nil = not in it
+		ver        string                 // version of the API group the manifest names ("" = the default)
 	}
 	var slots []*slot
 	for _, p := range objPool {
@@ -490,7 +491,17 @@ func genObjCase(r *rand.Rand) *objCase {
 		}
 	}
 	res := func(s *slot, b map[string]interface{}) objRes {
-		return objRes{Kind: s.kind, Name: s.name, Body: objBody(jsonCopy(b))}
+		return objRes{Kind: s.kind, Name: s.name, Ver: s.ver, Body: objBody(jsonCopy(b))}
+	}
+	// a Deployment may move between apps/v1 and apps/v1beta2 from one manifest to the next: the same object
+	flipVer := func(s *slot) {
+		if _, kind := nsim.SplitKind(s.kind); kind == "Deployment" && r.Intn(4) == 0 {
+			if s.ver == "" {
+				s.ver = "v1beta2"
+			} else {
+				s.ver = ""
+			}
+		}
 	}
 	// the state the history starts from: a previous revision and what the cluster holds of it
 	var cur []objRes
@@ -498,6 +509,7 @@ func genObjCase(r *rand.Rand) *objCase {
 		switch x := r.Intn(10); {
 		case x < 6:
 			s.cur = objBody(gGen(r, s.spec))
+			flipVer(s)
 			cur = append(cur, res(s, s.cur))
 			if r.Intn(8) > 0 {
 				c.Live = append(c.Live, res(s, objLive(r, s.spec, s.cur, nil)))
@@ -532,6 +544,7 @@ func genObjCase(r *rand.Rand) *objCase {
 				switch {
 				case s.cur != nil && r.Intn(6) > 0: // stays, changed
 					s.cur = objBody(gMutate(r, s.spec, jsonCopy(s.cur)))
+					flipVer(s)
 					tgt = append(tgt, res(s, s.cur))
 				case s.cur != nil: // dropped by the new manifest
 					s.cur = nil
